@@ -231,20 +231,20 @@ theorem procPairs_all2 (proc : Node → Ty → ProcRes) (K V : Ty) (cons : Node 
     simp only at hpk hpv
     simp [procPairs, hpk, hpv, hqs]
 
-theorem flattenStep_id (flat : List (Node × Node) → Option (List (Node × Node))) :
+theorem flattenStep_plain_keys (flat : List (Node × Node) → Option (List (Node × Node))) :
     ∀ (qs : List (Node × Node)), (∀ q ∈ qs, NotMergeKey q.1) → flattenStep flat qs = some ([], qs)
   | [], _ => rfl
   | q :: qs, h => by
-    have ih := flattenStep_id flat qs (fun x hx => h x (List.mem_cons_of_mem _ hx))
+    have ih := flattenStep_plain_keys flat qs (fun x hx => h x (List.mem_cons_of_mem _ hx))
     have hq := h q List.mem_cons_self
     unfold flattenStep
     rw [ih]
     simp [hq.1, hq.2]
 
-theorem flattenPairs_id (fuel : Nat) (qs : List (Node × Node)) (h : ∀ q ∈ qs, NotMergeKey q.1) :
+theorem flattenPairs_plain_keys (fuel : Nat) (qs : List (Node × Node)) (h : ∀ q ∈ qs, NotMergeKey q.1) :
     flattenPairs (fuel + 1) qs = some qs := by
   unfold flattenPairs
-  rw [flattenStep_id _ qs h]
+  rw [flattenStep_plain_keys _ qs h]
   simp
 
 theorem dictSet_append (acc : List (PyVal × PyVal)) (k v : PyVal)
@@ -312,7 +312,7 @@ theorem coreOut_map (env : Env) (tbl : List Entry) (fuel : Nat) (k : MapKind) (K
   · unfold afterRec savStep subStep tagStep
     simp [hqs, typeToTag, Node.setTag]
   · unfold construct
-    simp [Node.tag, byTag_core env tMap tMap_core, core_ne_path tMap tMap_core, flattenPairs_id fuel qs hnm, hcons]
+    simp [Node.tag, byTag_core env tMap tMap_core, core_ne_path tMap tMap_core, flattenPairs_plain_keys fuel qs hnm, hcons]
   · intro _; simp [typeToTag, Node.tag]
 
 /-! ### enum members and string-likes -/
@@ -956,7 +956,7 @@ theorem coreOut_obj (env : Env) (tbl : List Entry) (fuel : Nat) (c : String) (kw
     intro q hq'
     obtain ⟨_, _, h⟩ := All2.mem_right hq q hq'
     exact h.2.1
-  have hflat := flattenPairs_id fuel _ hnm
+  have hflat := flattenPairs_plain_keys fuel _ hnm
   have hsame : All2 SameName (mainKw ++ extraKw) ps.toList := by
     rw [O.psEq]
     apply All2.append
